@@ -110,6 +110,9 @@ func (m *Machine) ldbFind(db *ldbModel, key []*smt.Term) int {
 	return -1
 }
 
+// ldbGlobalErr returns the value of leveldb.<name> (ErrNotFound, ErrClosed). The initialisers of the
+// goleveldb packages are not interpreted (the library is modelled), so the error variables the
+// model hands out are created here on first use; leveldb/errors.ErrNotFound is the same value.
 func (m *Machine) ldbGlobalErr(name string) Value {
 	pkg := m.P.Prog.ImportedPackage(ldbPkg)
 	if pkg == nil {
@@ -119,7 +122,18 @@ func (m *Machine) ldbGlobalErr(name string) Value {
 	if g == nil {
 		panic(m.unsupported("leveldb." + name + " not found"))
 	}
-	return *m.globalAddr(g, nil)
+	cell := m.globalAddr(g, nil)
+	if it, ok := (*cell).(Iface); ok && it.T == nil {
+		*cell = m.errorValue("leveldb: " + name)
+		if name == "ErrNotFound" {
+			if ep := m.P.Prog.ImportedPackage(ldbPkg + "/errors"); ep != nil {
+				if eg := ep.Var("ErrNotFound"); eg != nil {
+					*m.globalAddr(eg, nil) = *cell
+				}
+			}
+		}
+	}
+	return *cell
 }
 
 // mutate reports whether the mutating call is applied (false once the crash point is reached).
